@@ -33,6 +33,8 @@ type CallSpec struct {
 	ReadPat  int // 0 read to EOF, 1 exact length then Close, 2 small random reads
 	ReadPat3 int // pattern for arg3 when it differs from arg2's: value-1 (0 = same as ReadPat)
 	CancelAfter time.Duration // >0: the caller cancels its context after this long
+	ReadPause   time.Duration // >0: the caller is busy this long between writing the request and reading the response
+	ChunkPause  time.Duration // >0: the caller reads the response piecewise and is busy this long after each piece
 	Opts     *tchannel.CallOptions
 	Via      string // description of the path (direct / relay name)
 	NoCheck  bool   // data oracle not applicable (e.g. hostile server)
@@ -92,6 +94,10 @@ type CallRec struct {
 	wantRes2, wantRes3 []byte
 	Cancelled bool
 	CancelAt  time.Duration
+	CancelEv  int64
+	Stall0    time.Duration // total injected stall time when the call began
+	WroteEv   int64         // the request was written completely (both argument writers closed); 0 = never
+	WroteAt   time.Duration
 	Appended  bool // a relay host appended key/values to arg2
 	AfterClose bool  // begun after Close returned on the calling node (must fail locally)
 	TOutEv    int64 // event number when BeginCall returned
@@ -275,10 +281,32 @@ func writeArgRaw(wr tchannel.ArgWriter, err error, data []byte, pat int) error {
 // readArg reads one argument with the given pattern. want is the expected
 // length (used by the exact-length pattern only).
 func readArgRaw(rd tchannel.ArgReader, err error, pat int, want int) ([]byte, error) {
+	return readArgPaused(rd, err, pat, want, 0)
+}
+
+// readArgPaused: with pause > 0 the consumer reads piecewise and is busy for
+// that long after every piece (it is then NOT parked inside the library).
+func readArgPaused(rd tchannel.ArgReader, err error, pat int, want int, pause time.Duration) ([]byte, error) {
 	if err != nil {
 		return nil, err
 	}
 	var out []byte
+	if pause > 0 {
+		buf := make([]byte, 16<<10)
+		for {
+			n, err := rd.Read(buf)
+			out = append(out, buf[:n]...)
+			if err == io.EOF {
+				break
+			}
+			if err != nil {
+				rd.Close()
+				return out, err
+			}
+			sleep(pause)
+		}
+		return out, rd.Close()
+	}
 	switch pat {
 	case 1: // exactly the argument's bytes, then Close without observing EOF
 		out = make([]byte, want)
@@ -320,6 +348,7 @@ func (w *World) Call(r *CallRec) {
 	ctx, cancel = cb.Build()
 	defer cancel()
 	stall0 := sched.StallTime
+	r.Stall0 = stall0
 	r.BeginEv = w.event("call-begin", "%s %s->%s %s mode=%s to=%v a2=%d a3=%d", s.Tag, s.From.Name, s.To, s.Via, s.Mode, s.Timeout, len(r.Req2), len(r.Req3))
 	r.TIn = simrt.Elapsed()
 	r.Deadline = r.TIn + s.Timeout
@@ -330,7 +359,7 @@ func (w *World) Call(r *CallRec) {
 			if !r.Done {
 				r.Cancelled = true
 				r.CancelAt = simrt.Elapsed()
-				w.event("call-cancel", "%s", s.Tag)
+				r.CancelEv = w.event("call-cancel", "%s", s.Tag)
 				cancel()
 			}
 		})
@@ -366,8 +395,14 @@ func (w *World) Call(r *CallRec) {
 		finish(err)
 		return
 	}
+	r.WroteEv = w.tick()
+	r.WroteAt = simrt.Elapsed()
+	if s.ReadPause > 0 {
+		sleep(s.ReadPause)
+	}
 	resp := call.Response()
-	a2, err := readArg(resp.Arg2Reader())(s.ReadPat, len(r.wantRes2))
+	a2r, a2e := resp.Arg2Reader()
+	a2, err := readArgPaused(a2r, a2e, s.ReadPat, len(r.wantRes2), s.ChunkPause)
 	r.Read2 = len(a2)
 	if err != nil {
 		finish(err)
@@ -378,7 +413,8 @@ func (w *World) Call(r *CallRec) {
 	if s.ReadPat3 > 0 {
 		rp3 = s.ReadPat3 - 1
 	}
-	a3, err := readArg(resp.Arg3Reader())(rp3, len(r.wantRes3))
+	a3r, a3e := resp.Arg3Reader()
+	a3, err := readArgPaused(a3r, a3e, rp3, len(r.wantRes3), s.ChunkPause)
 	r.Read3 = len(a3)
 	if err != nil {
 		finish(err)
@@ -430,6 +466,15 @@ func (w *World) checkCallOutcome(r *CallRec) {
 		d := fmt.Sprintf("call %s (%s) failed with %q although no byte was altered in transit in this run", s.Tag, s.Via, r.Err.Error())
 		w.violate("C04", "spurious-checksum-error", "%s", d)
 		w.violate("C02", "spurious-checksum-error", "%s", d)
+	}
+	if r.H.ReadErr != nil && w.corruptPlanned == false && strings.Contains(r.H.ReadErr.Error(), "checksum") {
+		// same on the destination side: the handler could not read the request arguments
+		d := fmt.Sprintf("call %s (%s): the destination handler's argument read failed with %q although no byte was altered in transit in this run", s.Tag, s.Via, r.H.ReadErr.Error())
+		w.violate("C04", "spurious-checksum-error", "%s", d)
+		w.violate("C02", "spurious-checksum-error", "%s", d)
+		if strings.HasPrefix(s.Via, "relay") {
+			w.violate("C08", "arguments-unreadable", "%s: what the relay forwarded is not the caller's request", d)
+		}
 	}
 	if s.NoCheck {
 		return
@@ -551,6 +596,13 @@ func (h *echoHandler) Handle(ctx context.Context, call *tchannel.InboundCall) {
 		st0 := simrt.Cur().StallTime
 		select {
 		case <-t.C:
+			if ctx.Err() != nil {
+				// both were ready when the select ran (it picks at random): the context HAD ended
+				obs.CtxDoneAt = simrt.Elapsed()
+				obs.CtxErr = ctx.Err()
+				obs.CtxDone = true
+				break
+			}
 			obs.DelayEnd = simrt.Elapsed()
 			obs.DelayDone = true
 		case <-ctx.Done():
